@@ -34,7 +34,7 @@ def parseCalls (msg : Bytes) : List String → Option (List Call)
       pure (.verify b :: cs)
     | _ => none
 
-def handle (line : String) : String :=
+def handle1 (line : String) : String :=
   let o := parseOp line
   match o.hex? "key", o.hex? "msg" with
   | some key, some msg =>
@@ -66,5 +66,15 @@ def handle (line : String) : String :=
           if outs.isEmpty then "-" else "|".intercalate (outs.map showOut)
     else "bad-op"
   | _, _ => "bad-op"
+
+/-- `sess ops=<op1>|<op2>|…` (sub-op fields separated by `;`): a session of calls that share arrays and buffers in
+    the harness. The model is a pure function of contents: each sub-op is answered on its own. -/
+def handle (line : String) : String :=
+  let o := parseOp line
+  if o.cmd == "sess" then
+    match o.get? "ops" with
+    | some v => " ## ".intercalate ((v.splitOn "|").map (fun s => handle1 (s.replace ";" " ")))
+    | none => "bad-op"
+  else handle1 line
 
 end XC.C04
